@@ -231,6 +231,7 @@ func Spec(t *rapid.T, o SpecOpts) *ref.SpecModel {
 		}
 	}
 	var toks []*ref.Decl
+	predefOff := rapid.IntRange(0, len(PredefNames)-1).Draw(t, "predefOff")
 	for i, name := range o.Tokens {
 		if !used[name] && rapid.IntRange(0, 3).Draw(t, "unusedTok") != 0 {
 			continue
@@ -242,7 +243,7 @@ func Spec(t *rapid.T, o SpecOpts) *ref.SpecModel {
 		case 1:
 			d.TokKind, d.Text = "regex", fmt.Sprintf("[0-9]+t%d", i)
 		default:
-			d.TokKind, d.Text = "predef", PredefNames[i%len(PredefNames)]
+			d.TokKind, d.Text = "predef", PredefNames[(predefOff+i)%len(PredefNames)]
 		}
 		toks = append(toks, d)
 	}
